@@ -201,6 +201,11 @@ func (Precompile).Delegate
     ensures native_effect: result.1 == nil ==> cstate == delegate_post(old(cstate), ctx_wrap(ctx), bech_of(del), val, denom, amt)
     // the EVM balance mirror is adjusted exactly when the calling contract itself is the delegator, by exactly the amount
     ensures mirror: result.1 == nil ==> sdb_delta == ite(caller == del, upd(old(sdb_delta), caller, old(sdb_delta)[caller] - amt), old(sdb_delta))
+    // ---- C02: the Cosmos-side debit of the delegator is mirrored into the EVM's cached balance of that account. The delegator
+    // is the signer or the calling contract; both are in the StateDB cache by the time a precompile runs (CanTransfer reads
+    // them), and the write-back at commit stores the cached balance of every account the transaction made dirty
+    // FINDING F5: no mirror when the signer delegates through a calling contract (caller != delegator == origin)
+    ensures c02_mirrored: result.1 == nil ==> sdb_delta == upd(old(sdb_delta), del, old(sdb_delta)[del] - amt)
 
 func (Precompile).Undelegate
     requires wf: contract != nil && method != nil && isdyn(stateDB, *SDB) && dyn(stateDB, *SDB) != nil && p.stakingKeeper.Keeper != nil && ctx_height(ctx) >= 0
